@@ -175,7 +175,7 @@ def read_vti(raw: bytes) -> dict:
 class C16(Prop):
     id = "C16"
     anchored = ["src/pewlib/io/textimage.py", "src/pewlib/io/vtk.py"]
-    cases = {"quick": 1500, "thorough": 20000}
+    cases = {"quick": 800, "thorough": 12000}
     rule = ("text: images from 1x1 (single rows and columns forced) with special values (denormals, +-max, -0.0, NaN, "
             "+-inf, arbitrary bit patterns), saved and loaded, plus harness-written files with ',', ';', tab and mixed "
             "delimiters; VTK: 2-D and 3-D structured float64 images with 1..4 elements whose names need XML escaping, "
